@@ -27,6 +27,8 @@ EXPLANATION = (
     'interpretation with definite-assignment tracking). C12-inval: no reference or pointer into a '
     'vector/string is used after an operation that may reallocate it. C12-footer: with the ranges '
     'the footer parser admits every constant-table subscript of the rule expander is in bounds. '
+    'C12-sentinel: on every accepting path of the loader the first transition is negative (or the -2^59 '
+    'sentinel is inserted) and the last is non-negative (or the 2^31-1 sentinel is appended). '
     'C12-fail: a failed load yields no zone object. C12-pure: the loader reads no environment, '
     'clock or mutable static. Does not decide absence of signed overflow on 64-bit transition times.')
 LEVEL = ('Structural and abstract-interpretation proof of bounded decoding, index validation, loop termination shape, '
@@ -943,11 +945,67 @@ def check_footer(ctx, rule):
 
 
 # ----------------------------------------------------------------------------
+# C12-sentinel: a transition in each half of the time line on every accepting path
+
+
+def check_sentinels(ctx):
+    G = ctx.G
+    k = G.one('cctz::TimeZoneInfo::Load', 'ZoneInfoSource')
+    u, f = G.defs[k]
+    F = ctx.facts(f)
+    keys = F.keys
+    g = ctx.cfg(f)
+    acc = [rn for rn in g.returns if keys.key(kids(rn.ast)[0]) == 'n:1']
+    fo = Folder(u)
+    # nodes that give a freshly emplaced entry a constant instant
+    ins = {'first': [], 'last': []}
+    for x in walk(f):
+        if x.get('kind') == 'BinaryOperator' and x.get('opcode') == '=' and keys.key(kids(x)[0]).endswith('.unix_time'):
+            v = fo.fold(kids(x)[1])
+            tgt = peel(kids(x)[0])
+            base = peel(kids(tgt)[0]) if kids(tgt) else None
+            d = u.by_id.get((base.get('referencedDecl') or {}).get('id')) if base is not None and base.get('kind') == 'DeclRefExpr' else None
+            ik = Keys(u).key(kids(d)[-1]) if d is not None and kids(d) else ''
+            if v is not None and 'emplace' in ik:
+                if v < 0 and '.begin()' in ik:
+                    ins['first'].append(x)
+                if v >= 0 and '.end()' in ik:
+                    ins['last'].append(x)
+    for half, insert_nodes, op_ok in (('first', ins['first'], 'neg'), ('second', ins['last'], 'nonneg')):
+        cut_edges = []
+        for n in g.live:
+            if n.kind != 'cond':
+                continue
+            for lab in ('T', 'F'):
+                for (op, a, b) in F.cond_facts(n.ast, lab == 'T'):
+                    ka = a if b == 'n:0' else b if a == 'n:0' else None
+                    if ka is None or not ka.endswith('.unix_time'):
+                        continue
+                    which = 'front' if ('.front()' in ka or '[n:0]' in ka) else 'back' if ('.back()' in ka or 'size() - n:1' in ka) else None
+                    # `last` declared as transitions_.back()
+                    m = re.match(r'^(\w+)#(0x[0-9a-f]+)\.unix_time$', ka)
+                    if m and which is None:
+                        d = u.by_id.get(m.group(2))
+                        ik = Keys(u).key(kids(d)[-1]) if d is not None and kids(d) else ''
+                        which = 'back' if '.back()' in ik else 'front' if '.front()' in ik else None
+                    if half == 'first' and which == 'front' and ((op == '<' and a == ka and b == 'n:0')):
+                        cut_edges.append((n.id, lab))
+                    if half == 'second' and which == 'back' and ((op == '<=' and a == 'n:0' and b == ka)):
+                        cut_edges.append((n.id, lab))
+        cut_nodes = [nn for x in insert_nodes for nn in g.nodes_for(x)]
+        ok = bool(cut_nodes) and not g.reachable_avoiding(acc, cut_nodes, cut_edges)
+        ctx.check(ok, 'C12-sentinel', 'every successful load leaves a transition in the %s half of the time line' % half, f,
+                  'Load can succeed without the %s transition being %s or a sentinel being added: differences between an instant '
+                  'and its nearest transition are then not representable and lookups far from the data overflow' % (
+                      'first' if half == 'first' else 'last', 'negative' if half == 'first' else 'non-negative'),
+                  construct='sentinel:%s' % half, detail='%d guard edge(s), %d insertion(s)' % (len(cut_edges), len(cut_nodes)))
+    ctx.minimum('C12-sentinel', 2)
 
 
 def run(ctx):
     G = ctx.G
     check_cursor(ctx)
+    check_sentinels(ctx)
     check_index(ctx)
     # C12-narrow / C12-loops
     kl = G.one('cctz::TimeZoneInfo::Load', 'ZoneInfoSource')
